@@ -1129,6 +1129,7 @@ func c38Pinned() string {
 		{httpReq{Route: "v2 POST /logs/import", Method: "POST", Path: "/v2/imp/logs/import", Write: true, Partial: true, Body: []byte(`{"type":"NOPE","data":{},"id":1}`)}, 4},
 		{httpReq{Route: "v2 POST /logs/import", Method: "POST", Path: "/v2/imp/logs/import", Write: true, Partial: true, Body: []byte(`{"type":"SET_METADATA","data":{"targetType":"X","targetId":1,"metadata":{}},"id":1}`)}, 4},
 		{httpReq{Route: "v2 POST /logs/import", Method: "POST", Path: "/v2/imp/logs/import", Write: true, Partial: true, Body: []byte(`{"type":"NEW_TRANSACTION","data":null,"id":1}`)}, 4},
+		{httpReq{Route: "v2 POST /logs/import", Method: "POST", Path: "/v2/imp/logs/import", Write: true, Partial: true, Body: []byte(`{"type":"SET_METADATA","data":{"targetType":"ACCOUNT","targetId":false,"metadata":{"k":"v"}},"date":"2023-01-01T00:00:01Z","id":1}`)}, 4},
 		{httpReq{Route: "v2 POST /logs/import", Method: "POST", Path: "/v2/imp/logs/import", Write: true, Partial: true, Body: []byte(`{"type":"NEW_TRANSACTION","data":{"transaction":{"postings":[]},"accountMetadata":{}}}`)}, 4},
 		{httpReq{Route: "v2 POST /logs/import", Method: "POST", Path: "/v2/imp/logs/import", Write: true, Partial: true, Body: []byte(`{"type":"SET_METADATA","data":{"targetType":"TRANSACTION","targetId":1,"metadata":{"k":"v"}},"date":"2023-01-01T00:00:02Z","idempotencyKey":"","id":3,"hash":null}`)}, 4},
 		{httpReq{Route: "v2 POST /logs/import", Method: "POST", Path: "/v2/imp/logs/import", Write: true, Partial: true, Body: []byte(`{"script":{"plain":"send"}}`)}, 4},
@@ -1175,7 +1176,7 @@ func TestC38(t *testing.T) {
 	if problem := c38Pinned(); problem != "" {
 		t.Fatalf("VIOLATION[C38] (pinned request): %s", problem)
 	}
-	st.Set("pinned_requests", 30)
+	st.Set("pinned_requests", 31)
 	if known.IsOpen(FindingAPIBalanceNoAsset) && reproduceAPIBalanceNoAsset() {
 		fmt.Println(known.Line(FindingAPIBalanceNoAsset))
 		st.Known(known.Line(FindingAPIBalanceNoAsset))
